@@ -35,9 +35,9 @@ Terms == IF Small THEN {N("term", "\"s t\"", <<>>), N("term", "-2", <<>>), N("te
                N("term", "2.0", <<>>), N("term", "9007199254740993", <<>>), N("term", "\"x \n  y\"", <<>>)}
 Refs == IF Small THEN {N("ref", "$p.variables.x.k", <<>>)}
         ELSE {N("ref", "$p.variables.x.k", <<>>), N("ref", "$p.headers.h", <<>>), N("ref", "$p.metadata.m", <<>>)}
-\* function lexicon: name (with qualifiers) and arity
+\* function lexicon: name (with qualifiers) and arity; an arbitrary-name qualifier keeps its case (count.nM)
 Fn0 == {"yes", "count.onmatch"}
-Fn1 == IF Small THEN {"not", "count.nm"} ELSE {"not", "length", "count.nm"}
+Fn1 == IF Small THEN {"not", "count.nM"} ELSE {"not", "length", "count.nM"}
 Fn2 == IF Small THEN {"push.notnone"} ELSE {"add", "push.notnone"}
 Fn3 == IF Small THEN {} ELSE {"concat"}
 
